@@ -25,13 +25,12 @@
    is already undefined; on a flat address space it is a plain integer comparison. The model checks
    dereferences only and this remark is the obligation that is NOT covered.
 
-   The model is what the code DOES. lyjson_exp_number() is wrong in its second layout branch
-   (leading `0.` and the new decimal point inside the digits): the position of the new decimal point
-   is taken relative to the digits BEFORE the useless leading zeros are dropped, and the byte for
-   the decimal point is not counted in buf_len. The result is still inside the allocation (the
-   terminating NUL overwrites the last byte written) but it is not the number that was given:
+   The model is what the code DOES, as of /repo commit 63186d2. Before that commit the second layout branch (leading
+   `0.` and the new decimal point inside the digits) took the position of the new decimal point relative to the digits
+   BEFORE the useless leading zeros were dropped and did not count the byte of the decimal point in buf_len:
      0.5E1 -> `.`    0.55E1 -> `.5`    0.055E2 -> `5.`    0.0055E3 -> `55`    0.123456E3 -> `12.345`
-   (see JsonNumP.v / Properties_C05_jsonnum.v: ..._len_exact_refuted, ..._denotes_refuted). *)
+   (inside the allocation, the terminating NUL overwrote the last byte written). These inputs are kept as regression
+   examples in Properties_C05_jsonnum.v. *)
 From LY Require Import Base.
 Local Open Scope Z_scope.
 
@@ -264,9 +263,11 @@ Definition exp_number (s : bytes) (ex total_len : Z) : jres expres :=
     let dp := i32 (dp - 1) in
     let* zeros := count_in_row s num (num + dp + 1) 48%N false in
     let allz := zeros =? dp + 1 in
+    (* since /repo 63186d2: otherwise the new decimal point goes behind the dp + 1 - zeros digits that are left before
+       it once the zeros are dropped, and its byte is counted when digits follow it *)
+    let dp := if allz then 1 else i32 (dp + 1 - zeros) in
     let zeros := if allz then zeros - 1 else zeros in
-    let dp := if allz then 1 else dp in
-    let dot := if allz then 1 else 0 in
+    let dot := if allz then 1 else (if dp <? num_len - zeros then 1 else 0) in
     let buf_len := u64 (minus + dot + (num_len - zeros)) in
     let* b := get_buffer buf_len in
     let* (b, i) := maybe_minus b minus in
